@@ -46,9 +46,9 @@ claim("C11", "model_checking",
       "For every recorded move call TLC folds the per-element outcomes (label picked, veto) through DispSub/Fold of QMC.tla: atoms outside the selected labels keep their position tokens, the chosen label is legal (non-negative, present, not displaced before in a composite displacement, equal to the pre-selection), every entitled atom moved for non-degenerate operations, and the move's result equals 'some element succeeded'.",
       ENGINE_NOTE, "5 C11")
 claim("C12", "model_checking",
-      "trace validation against QMC.tla (FixAtoms atoms keep their position tokens through call/accept/reject/fail); numeric layers for FixCom/FixRot are added by the C12 harness",
+      "TLC: exhaustive MC_QMC.tla + trace validation against QMC.tla (FixAtoms atoms keep their position tokens through call/accept/reject/fail); numeric layer for FixCom drift, fixed atoms under Hamiltonian / force-bias moves and FixRot",
       "TLC evaluates C12_Fixed on every observed end-of-trial state and the AfterCall semantics (atoms in cons never receive a new position token) on every move call of Canonical, HamiltonianCanonical, Isobaric and GrandCanonical traces.",
-      ENGINE_NOTE + " FixCom/FixRot/force-bias clauses: see evidence (numeric predicates).", "5 C12")
+      ENGINE_NOTE + " The centre-of-mass, force-bias and FixRot clauses are real-valued: decided by numeric predicates (drift <= 1e-9 A, |L|, dP <= 1e-9 relative), not by TLC.", "5 C12")
 
 claim("C19", "model_checking",
       "TLC exhaustive over index sequences and graphs (AtomsOps.tla) + replay of every case on real ase.Atoms",
